@@ -162,6 +162,12 @@ def r15_2(ctx):
             ok = isinstance(nd.stmt, ast.Delete) and any(v is True and norm(t) == "clear" for t, v in facts)
             ctx.check(ok, f.fq, short(nd.stmt), f"{f.module.relpath}:{nd.lineno}", "record emptied only under `if clear`",
                       f"`{short(nd.stmt)}` changes the record without being guarded by `if clear`: exporting with clear=False alters the record (or clear=True does not empty it)")
+        # the `if clear` test is reached on every normal path (no early return skips it)
+        tests = {nd.id for nd in g.stmt_nodes() if nd.kind == "test" and norm(nd.expr) == "clear"}
+        w = g.must_pass(g.entry, tests, {g.exit}) if tests else [g.entry]
+        ctx.check(w is None, f.fq, "if clear", f.where, "every normal path through the export reaches the `if clear` test",
+                  f"a path through {f.qualname} returns without reaching `if clear` (e.g. an early return in one branch): exporting with clear=True leaves the record in place on that path, so the next export repeats old output",
+                  g.describe_path(w) if w else None)
         if "clear" not in f.params:
             ctx.violation(f.fq, "no clear parameter", f.where, "export has no `clear` parameter")
     ctx.floor(n, 2, "record mutations in exports")
